@@ -25,7 +25,9 @@ Definition ref_verdict (s : ipsets) (tiers : list mtier) (profiles : list mprofi
 Inductive expectation :=
 | ExpAllow          (* policy allowed: RETURN to the dispatch chain with the accept mark set *)
 | ExpDeny           (* DROP / REJECT *)
-| ExpCtAllow.       (* established connection: the chain's allow action (ACCEPT, or accept mark + RETURN) *)
+| ExpCtAllow        (* established connection: the chain's allow action (ACCEPT, or accept mark + RETURN) *)
+| ExpNoVerdict.     (* forward chains only: no tier decided; the chain ends with the accept mark clear and the
+                       packet goes on through the rest of the FORWARD path *)
 
 Definition ct_in (p : packet) (l : list ctstate) : bool := existsb (ctstate_eqb (pk_ct p)) l.
 
@@ -33,15 +35,32 @@ Definition encap_blocked (ec : ecfg) (p : packet) : bool :=
   (match ec_block_vxlan ec with Some port => N.eqb (pk_proto p) 17 && N.eqb (pk_dport p) port | None => false end)
   || (ec_block_ipip ec && N.eqb (pk_proto p) 4).
 
-(* normal (filter-table) endpoint chains *)
+(* the tiers alone (forward chains of host endpoints render no profiles): first tier that allows or denies *)
+Fixpoint tiers_verdict (s : ipsets) (tiers : list mtier) (p : packet) : verdict :=
+  match tiers with
+  | [] => VNoMatch
+  | t :: ts => match tier_verdict s (to_tier t) p with
+               | VAllow => VAllow | VDeny => VDeny
+               | VPass | VNoMatch => tiers_verdict s ts p
+               end
+  end.
+
+(* normal (filter-table) endpoint chains, and the forward chains of host endpoints *)
 Definition expected (ec : ecfg) (s : ipsets) (tiers : list mtier) (profiles : list mprofile) (p : packet) : expectation :=
   if negb (ec_admin_up ec) then ExpDeny
   else if ct_in p [CtRelated; CtEstablished] then ExpCtAllow
   else if ec_ct_invalid ec && ct_in p [CtInvalid] then ExpDeny
   else if encap_blocked ec p then ExpDeny
-  else match ref_verdict s tiers profiles p with
-       | VAllow => ExpAllow
-       | _ => ExpDeny
+  else match ec_type ec with
+       | TForward =>
+           (* forwarded traffic is allowed when no applyOnForward policy applies; otherwise the tiers decide *)
+           if is_nil tiers then ExpAllow
+           else match tiers_verdict s tiers p with VAllow => ExpAllow | VDeny => ExpDeny | _ => ExpNoVerdict end
+       | _ =>
+           match ref_verdict s tiers profiles p with
+           | VAllow => ExpAllow
+           | _ => ExpDeny
+           end
        end.
 
 (* everything but the mark is untouched *)
@@ -63,6 +82,7 @@ Definition ok_result (ec : ecfg) (c : cfg) (x : expectation) (p : packet) (res :
   | ExpCtAllow, RReturn p' =>
       (match ec_allow ec with AllowReturn => true | AllowAccept => false end)
       && mark_has (pk_mark p') (c_accept c) && packet_eqb_unmarked p p'
+  | ExpNoVerdict, RFall p' => mark_clear (pk_mark p') (c_accept c) && packet_eqb_unmarked p p'
   | _, _ => false
   end.
 
